@@ -17,7 +17,7 @@ def num_machines_of(jobs) -> int:
 
 def dispatch_scenario(rng: random.Random, *, family=None, with_invalid=True, stop_early=True,
                       replay=False, queries=False, max_jobs=4, max_machines=4, max_ops=4,
-                      flt="random", huge=True) -> Scenario:
+                      flt="random", huge=True, observers=False) -> Scenario:
     """new / inst / filter / a random valid dispatch history with `snap` after every accepted dispatch,
     invalid requests injected at random positions, optionally reset + replay of the accepted history."""
     family, jobs = gen.gen_instance(rng, family, max_jobs=max_jobs, max_machines=max_machines, max_ops=max_ops)
@@ -26,6 +26,16 @@ def dispatch_scenario(rng: random.Random, *, family=None, with_invalid=True, sto
     f = gen.gen_filter(rng) if flt == "random" else flt
     style = rng.choice(["uniform", "uniform", "one_job_first", "last_job_first"])
     lines = ["new", instance_line(jobs), gen.filter_line(f)]
+    with_observers = False
+    if observers and rng.random() < 0.25 and max(d for job in jobs for _, d in job) < 2 ** 24:
+        # observers that read (and must not write) the dispatcher from inside their callbacks are subscribed
+        obs_lines = [f"fres {rng.choice(['disjunctive', 'agent_task', 'agent_task_jobs', 'complete_agent_task'])} 1 1"] \
+            if rng.random() < 0.5 else []
+        for k in rng.sample(["is_completed -", "is_scheduled -", "is_ready -", "earliest_start_time -", "duration -",
+                             "remaining_operations -", "position_in_job -"], rng.randint(1, 3)):
+            obs_lines.append("fobs " + k)
+        lines += obs_lines
+        with_observers = True
     tr = gen.Tracker(jobs)
     M = num_machines_of(jobs)
     total = gen.num_ops(jobs)
@@ -75,7 +85,7 @@ def dispatch_scenario(rng: random.Random, *, family=None, with_invalid=True, sto
         lines += ["q makespan", "q num_scheduled", "snap"]
     meta = {"family": family, "filter": "none" if f is None else "+".join(f) or "empty-composite",
             "style": style, "flexible": gen.is_flexible(jobs), "zero_dur": gen.has_zero(jobs),
-            "accepted": len(accepted), "invalid": n_invalid, "complete": len(accepted) == total,
+            "accepted": len(accepted), "invalid": n_invalid, "complete": len(accepted) == total, "observers": with_observers,
             "filter_style": rng.choice(["callable", "enum", "str", "lazy"]),
             # one in eight: the instance is built from Operation objects that an earlier instance (other job structure) used
             "reuse_ops": rng.random() < 0.125}
